@@ -41,9 +41,6 @@ RULES = server_table.TABLE_RULES + [
     Rule('R5:assoc-resp', r'<C as Channel>::Resp', 'C::Resp', why='same type'),
     Rule('R9:chan-err', r'\|e\| ChannelError::(\w+)\(Arc::new\(e\)\)',
          r'|e: TErr| -> (r: ChannelError<TErr>) ensures r is \1 { ChannelError::\1(Arc::new(e)) }', why='closure postcondition = its head constructor'),
-    Rule('R8b:unwrap_or_else', r'= trace::Context::try_from\(&span\)\.unwrap_or_else\(\|_\| \{\s*(?P<b>[^{}]*?)\s*\}\);',
-         r'= match trace::Context::try_from(&span) { Ok(v) => v, Err(_) => { \g<b> } };', flags=re.M | re.S,
-         why='Result::unwrap_or_else written out as its definition (closure captures the request)'),
     Rule('R1:set-context', r'^[ \t]*span\.set_context\(&request\.context\);\n', '', why='A-otel: OpenTelemetry parent linkage'),
     Rule('R1:trace-id-fmt', r'^[ \t]*if !(self\.in_flight_requests\.cancel_request\(request_id(?:, Tracked\(fx\))?\)) \{\s*\}\n', r'        let _ = \1;\n',
          why='after R1 the `if !cancel_request(..) { trace!(..) }` has an empty block'),
@@ -359,7 +356,7 @@ def throttle_parts():
                     self.cv().read_done_stable(old(self).cv()), // @core
                     self.cv().nr >= old(self).cv().nr, // @core
                     aborts_only(old(fx).log, fx.log), // @C04,C06
-              ''']),
+              '''], loops_optional=True),
             T(MR_SINK, 'poll_ready', 'poll_ready', tags='C14', ensures=KEEP),
             T(MR_SINK, 'start_send', 'start_send', tags='C14', ensures=KEEP),
             T(MR_SINK, 'poll_flush', 'poll_flush', tags='C14', ensures=KEEP),
@@ -429,7 +426,7 @@ def requests_parts():
                 final(self).rest_same(old(self)) && final(self).channel.cinv() && final(self).channel.quiet() == old(self).channel.quiet(), // @core
                 final(self).channel.cv().in_flight == old(self).channel.cv().in_flight && final(self).channel.cv().sent == old(self).channel.cv().sent && final(self).channel.cv().closed == old(self).channel.cv().closed
                     && final(self).channel.cv().read_done == old(self).channel.cv().read_done && final(self).channel.cv().read_reg == old(self).channel.cv().read_reg && final(self).channel.cv().nr == old(self).channel.cv().nr, // @core
-                r matches Poll::Ready(Some(Ok(()))) ==> final(self).channel.cv().ready && !final(self).channel.cv().failed, // @C14
+                r matches Poll::Ready(Some(Ok(()))) ==> final(self).channel.cv().ready && !final(self).channel.cv().failed, // @C14,C09
                 r matches Poll::Ready(Some(Err(e))) ==> final(self).channel.cv().failed && (e is Ready || e is Flush), // @C09
                 !(r matches Poll::Ready(None)), // @core
                 r is Pending ==> !final(self).channel.cv().failed && (final(self).channel.cv().flush_reg || final(self).channel.cv().ready_reg), // @C02,C14
@@ -510,7 +507,7 @@ def requests_parts():
     ]
 
 def unit():
-    return Unit('server', prelude=['base.rs', 'time.rs', 'delay_queue.rs', 'server_models.rs', 'transport.rs', 'server_queues.rs', 'cancellations.rs'],
+    return Unit('server', prelude=['base.rs', 'time.rs', 'delay_queue.rs', 'server_models.rs', 'trace_models.rs', 'transport.rs', 'server_queues.rs', 'cancellations.rs'],
                 parts=server_table.parts() + base_channel_parts() + throttle_parts() + requests_parts(), rules=RULES,
                 fx_fns=server_table.FX_CALLS + [r'(?:inner|channel)\s*\.poll_next\(', r'\.pump_read\('],
                 fx_prims=[r'request_cancellation\.cancel\(', r'response_tx\.send\('], fx_type='SFx')
